@@ -101,8 +101,8 @@ def append_textgrid_table(rep):
     at.fact_le(Lin.num(0), bm)
     at.fact_le(bm, bM)
     at.var("aM")  # one atom so that the (single) abstract state exists; everything else follows from the facts
-    spec_a = [("interval", "X", 1), ("point", "Y", 1), ("interval", "W", 0)]
-    spec_b = [("interval", "X", 1), ("point", "Z", 1)]
+    spec_a = [("interval", "X", 1), ("point", "Y", 1), ("interval", "W", 0), ("interval", "U", 1)]
+    spec_b = [("interval", "X", 1), ("point", "Z", 1), ("point", "V", 0), ("interval", "U", 0)]  # V: empty, only in B; U: empty in B, filled in A
 
     def mk(prefix, spec, lo, hi):
         out = []
@@ -168,7 +168,7 @@ def append_textgrid_table(rep):
         return out
 
     run_states(at, rows, tr)
-    tr.done("A{X,Y,W} . B{X,Z}, onlyMatchingNames in {True, False}")
+    tr.done("A{X,Y,W(empty),U} . B{X,Z,V(empty),U(empty)}, onlyMatchingNames in {True, False}")
 
 
 _run_shift = run
